@@ -182,10 +182,17 @@ async def to_async_iter(iterable: Iterable[T]) -> AYields[T]:
             yield x
         return
 
+    errors: List[BaseException] = []
+
     def _queue_elements() -> None:
         try:
             for x in iterable:
                 put(x)
+        except BaseException as e:
+            # Handed over as is and re-raised below: the executor future
+            # would re-create some exceptions (e.g. TimeoutError) instead
+            # of passing on the very object the iterable raised
+            errors.append(e)
         finally:
             put(_DONE)
 
@@ -200,7 +207,9 @@ async def to_async_iter(iterable: Iterable[T]) -> AYields[T]:
         future = loop.run_in_executor(pool, _queue_elements)
         while (i := await q.get()) is not _DONE:
             yield i  # type: ignore
-        await future  # Bubble any errors
+        await future  # Wait for the thread to finish
+        if errors:
+            raise errors[0]  # Bubble the iterable's error
 
 
 def to_sync_iter(iterable: AsyncIterable[T],
